@@ -6,7 +6,7 @@ BOUNDS = {
     "quick": "1-level fibers with 0..3 stored elements, symbolic coordinates and values: iterOccupancy / iterRange(start,end) (unbounded symbolic range, None ends) / "
              "iterActive; iterShape(Ref), iterRangeShape(Ref)(start, end, step in {1,2}) with span <= 4; __iter__ under formats C and U; __reversed__; every start_pos; "
              "lazy fibers (a & b, project, prune) iterated twice and materialised with fromLazy; project(c -> c+o / o-c, interval) and prune(c < theta); "
-             "coiterRangeShape(Ref) on two fibers",
+             "coiterRangeShape(Ref), coiterShape(Ref) and coiterActiveShape(Ref) on two fibers",
     "thorough": "fibers up to 4 elements, span <= 5, step 3, coiteration of 3 fibers",
 }
 OUTSIDE = "spans beyond the bound for shape loops; non-affine coordinate transforms; lazy fibers produced by populate (fromLazy documents it does not support them)"
@@ -287,10 +287,23 @@ def coiter(sk, lo, span, *xs):
     na, nb, ref, step = sk["na"], sk["nb"], sk["ref"], sk["step"]
     ac, av = list(xs[:na]), list(xs[na:2 * na])
     bc, bv = list(xs[2 * na:2 * na + nb]), list(xs[2 * na + nb:2 * na + 2 * nb])
-    a, b = Fiber(ac, av), Fiber(bc, bv)
-    sa, sb = raw(a), raw(b)
     hi = lo + span
-    z = Fiber.coiterRangeShapeRef([a, b], lo, hi, step) if ref else Fiber.coiterRangeShape([a, b], lo, hi, step)
+    form = sk.get("form", "range")
+    if form == "shape":
+        # coiterShape(Ref): the whole shape of the *first* fiber (lo is pinned to 0 by the precondition, the shape is lo + span)
+        a, b = Fiber(ac, av, shape=hi), Fiber(bc, bv, shape=hi + 2)
+    elif form == "active":
+        # coiterActiveShape(Ref): the active range of the *first* fiber
+        a, b = Fiber(ac, av, shape=hi + 1, active_range=(lo, hi)), Fiber(bc, bv, shape=hi + 3)
+    else:
+        a, b = Fiber(ac, av), Fiber(bc, bv)
+    sa, sb = raw(a), raw(b)
+    if form == "shape":
+        z = Fiber.coiterShapeRef([a, b]) if ref else Fiber.coiterShape([a, b])
+    elif form == "active":
+        z = Fiber.coiterActiveShapeRef([a, b]) if ref else Fiber.coiterActiveShape([a, b])
+    else:
+        z = Fiber.coiterRangeShapeRef([a, b], lo, hi, step) if ref else Fiber.coiterRangeShape([a, b], lo, hi, step)
     got = [(c, pv(p)) for c, p in z]
     want = list(range(lo, hi, step))
     if len(got) != len(want):
@@ -375,4 +388,10 @@ def obligations(tier):
             for step in (1, 2):
                 obs.append(Ob("coiter/%s/%dx%d/step%d" % ("ref" if ref else "noref", na, nb, step), "coiter",
                               dict(na=na, nb=nb, ref=ref, step=step), ["lo", "span"] + base, pre))
+            if (na, nb) != (2, 2):
+                inb = ["0 <= %s" % c for c in an + bn]
+                obs.append(Ob("coiter-shape/%s/%dx%d" % ("ref" if ref else "noref", na, nb), "coiter",
+                              dict(na=na, nb=nb, ref=ref, step=1, form="shape"), ["lo", "span"] + base, pre + ["lo == 0", "1 <= span"] + inb + ["%s < span" % c for c in an]))
+                obs.append(Ob("coiter-active/%s/%dx%d" % ("ref" if ref else "noref", na, nb), "coiter",
+                              dict(na=na, nb=nb, ref=ref, step=1, form="active"), ["lo", "span"] + base, pre + ["0 <= lo"] + inb + ["%s <= lo + span" % c for c in an]))
     return obs
